@@ -44,6 +44,10 @@ fn kind(k: &str) -> (String, Vec<u16>, bool) {
         "bigzstd" => (format!("GET /big HTTP/1.1\r\n{h}accept-encoding: zstd\r\n"), vec![200], false),
         "headbigzstd" => (format!("HEAD /big HTTP/1.1\r\n{h}accept-encoding: zstd\r\n"), vec![200], true),
         // a POST whose 35-byte body looks like a request and arrives after the head; the handler never reads it
+        // a body the handler reads to its end: with the head, after the head, and too long to come with the head
+        "postall" => (format!("POST /readall HTTP/1.1\r\n{h}content-length: 40\r\n"), vec![200], false),
+        "postalllate" => (format!("POST /readall HTTP/1.1\r\n{h}content-length: 40\r\n"), vec![200], false),
+        "postalllong" => (format!("POST /readall HTTP/1.1\r\n{h}content-length: 3000\r\n"), vec![200], false),
         "postlate" => (format!("POST /hello HTTP/1.1\r\n{h}content-length: 35\r\n"), vec![200], false),
         // the handler reads only the first 10 bytes of a 45-byte body; the other 35 look like a request
         "postpartial" => (format!("POST /read10 HTTP/1.1\r\n{h}content-length: 45\r\n"), vec![200], false),
@@ -52,7 +56,7 @@ fn kind(k: &str) -> (String, Vec<u16>, bool) {
         _ => unreachable!("{k}"),
     }
 }
-const KINDS: [&str; 38] = ["stream", "streamhead", "streamrange", "streambeyond", "streampast", "piped", "pipedhead", "pipedrange", "headbig", "bigbr", "headbigbr", "bigzstd", "headbigzstd", "postpartial", "posthuge", "postlate", "get", "head", "getgz", "headgz", "getbr", "uncached", "empty", "missing", "headmissing", "range", "headrange", "range416", "ims", "unsafe", "headunsafe", "notacceptable", "png406", "post", "options", "cors", "nocontent", "big"];
+const KINDS: [&str; 41] = ["postall", "postalllate", "postalllong", "stream", "streamhead", "streamrange", "streambeyond", "streampast", "piped", "pipedhead", "pipedrange", "headbig", "bigbr", "headbigbr", "bigzstd", "headbigzstd", "postpartial", "posthuge", "postlate", "get", "head", "getgz", "headgz", "getbr", "uncached", "empty", "missing", "headmissing", "range", "headrange", "range416", "ims", "unsafe", "headunsafe", "notacceptable", "png406", "post", "options", "cors", "nocontent", "big"];
 
 fn build(limited: bool) -> std::sync::Arc<HostCollection> {
     let mut ext = Extensions::new();
@@ -77,6 +81,12 @@ fn build(limited: bool) -> std::sync::Arc<HostCollection> {
         let mut r = Response::new(Bytes::from_static(body));
         r.headers_mut().insert("content-type", HeaderValue::from_static("image/png"));
         FatResponse::cache(r)
+    }));
+    // a handler that reads the request body to its end
+    ext.add_prepare_single("/readall", prepare!(req, _h, _p, _a, {
+        let b = req.body_mut().read_to_bytes(1_000_000).await.unwrap_or_default();
+        let sum = b.iter().fold(7u64, |acc, x| (acc * 31 + *x as u64) % 1_000_000_007);
+        FatResponse::no_cache(Response::new(Bytes::from(format!("read all {} bytes of the body, sum {sum} ..........................", b.len()))))
     }));
     ext.add_prepare_single("/read10", prepare!(req, _h, _p, _a, {
         let b = req.body_mut().read_to_bytes(10).await.unwrap_or_default();
@@ -144,6 +154,8 @@ impl Group for Framing {
             "c08.conn 0 [headbigbr,bigbr,headbigbr,headbigzstd,bigzstd,headbigzstd]".to_owned(),
             // bodies sent by a response future: a handler of its own, and the built-in file streamer with every kind of range
             "c08.conn 0 [piped,pipedhead,get,pipedrange,pipedhead,piped]".to_owned(),
+            // bodies read to their end by the handler, each followed by another request
+            "c08.conn 0 [postall,get,postalllate,get,postalllong,head,postalllate,postall,get]".to_owned(),
             "c08.conn 0 [stream,streamhead,get,streamrange,streambeyond,streampast,streamhead,stream]".to_owned(),
         ];
         // requests arriving in two TCP segments: the blank line on its own, the last LF on its own, cuts elsewhere
@@ -194,6 +206,16 @@ impl Group for Framing {
             };
             if sent.is_err() {
                 problems.push(format!("request {i} ({k}): send failed")); break;
+            }
+            if k == "postall" {
+                let _ = cl.send(&[b'x'; 40]);
+            }
+            if k == "postalllate" {
+                std::thread::sleep(std::time::Duration::from_millis(40));
+                let _ = cl.send(&[b'y'; 40]);
+            }
+            if k == "postalllong" {
+                let _ = cl.send(&vec![b'z'; 3000]);
             }
             if k == "postlate" {
                 std::thread::sleep(std::time::Duration::from_millis(40));
